@@ -420,6 +420,11 @@ theorem FixedLine.build (w : Nat) (lead : Txt) (S' : List Txt) (last : Txt) (k :
 theorem cleanField_ne_nil {w : Nat} (hw : 0 < w) {f : Txt} (h : CleanField w f) : f ≠ [] := by
   intro e; have := h.1.1; rw [e] at this; simp at this; omega
 
+theorem chunks_eq {α : Type} (k : Nat) (l : List α) :
+    chunks k l = if k = 0 ∨ l.length ≤ k then (if l.isEmpty then [] else [l]) else l.take k :: chunks k (l.drop k) := by
+  rw [chunks]
+  by_cases h : k = 0 ∨ l.length ≤ k <;> simp [h]
+
 theorem isCont_G (m : Mode) (r : Txt) : isCont m ('G' :: r) = false := by
   cases m <;> simp [isCont, Mode.conchar]
 
